@@ -83,6 +83,7 @@ type funcContract struct {
 	mode       string
 	inline     bool
 	wrap64     bool
+	localAnchors map[string]localAnchor // name -> (type, ordinal among named locals of that type): survives renames
 	pure       bool
 	trusted    bool // extern: contract is assumed, body never verified
 	requires   []*clause
@@ -131,6 +132,11 @@ type lemmaDecl struct {
 	pkg    string
 	props  []string
 	uses   []string // axioms are always available; "uses" lists lemmas assumed
+}
+
+type localAnchor struct {
+	typ string
+	ord int
 }
 
 type literalCheck struct {
@@ -247,6 +253,19 @@ func (db *specDB) loadSpecFile(path string, pkgName string, isGo bool) error {
 			cur.props = strings.Fields(strings.ReplaceAll(rest, ",", " "))
 		case "mode":
 			cur.mode = strings.TrimSpace(rest)
+		case "local":
+			// local <name> <type>#<k> : positional anchor of a local variable named in this function's contract
+			f := strings.Fields(rest)
+			if len(f) < 2 || !strings.Contains(f[len(f)-1], "#") {
+				return fmt.Errorf("%s: local <name> <type>#<k>", where)
+			}
+			tk := strings.Join(f[1:], " ")
+			j := strings.LastIndex(tk, "#")
+			k, _ := strconv.Atoi(tk[j+1:])
+			if cur.localAnchors == nil {
+				cur.localAnchors = map[string]localAnchor{}
+			}
+			cur.localAnchors[f[0]] = localAnchor{typ: strings.TrimSpace(tk[:j]), ord: k}
 		case "wrap64":
 			cur.wrap64 = true
 		case "inline":
